@@ -200,7 +200,10 @@ ProcessF(C, X, s, D) ==
      ELSE [X1 EXCEPT !.st = [n \in Nodes(C) |-> IF n \in cand THEN "queued" ELSE X1.st[n]]]
 
 (* Timeout(s): the wait of the main loop returns with nothing done         *)
-TimeoutG(C, X, s) == MainG(C, X, s) /\ C.tmo[s] >= 0 /\ X.now >= X.t0[s] + C.tmo[s]
+(* (a completion that happened strictly before the deadline is always seen  *)
+(*  before the expiry is: the wait returns it even when the loop is late)    *)
+TimeoutG(C, X, s) == /\ MainG(C, X, s) /\ C.tmo[s] >= 0 /\ X.now >= X.t0[s] + C.tmo[s]
+                     /\ \A k \in Unseen(C, X, s) : X.te[k] >= X.t0[s] + C.tmo[s]
 TimeoutF(C, X, s) == AbortF(C, X, s, "timeout")
 
 (* CancelProp(s): the cancellation of a nested run reaches its coroutine,  *)
@@ -311,6 +314,44 @@ Terminated(C, X) == X.pc[Root] = "over"
 (* a state from which nothing can happen although the top run is not over  *)
 Stuck(C, X) == ~Terminated(C, X) /\ ~AnyInstant(C, X) /\ Future(C, X) = {}
                /\ ~(\E j \in Jobs(C) : X.st[j] = "running" /\ C.dur[j] = -2)
+
+-----------------------------------------------------------------------------
+(* Generic action interface: an action is <<name, node, set, outcome, k>>.  *)
+(* Used by the lock-step twin (same action applied to two states) and by   *)
+(* the outcome predictor.                                                  *)
+Act(name, n)  == <<name, n, {}, "-", 0>>
+Acts(C, X) ==
+       {Act("Admit", j) : j \in {x \in Nodes(C) : AdmitG(C, X, x)}}
+  \cup {<<"JobEnd", j, {}, o, 0>> : j \in {x \in Nodes(C) : JobEndG(C, X, x)},
+                                      o \in {"ok", "exc"}}
+  \cup {Act("CancelDone", j) : j \in {x \in Nodes(C) : CancelDoneG(C, X, x)}}
+  \cup {Act("HandlerEnd", j) : j \in {x \in Nodes(C) : HandlerEndG(C, X, x)}}
+  \cup UNION {{<<"Process", s, D, "-", 0>> : D \in (SUBSET Unseen(C, X, s)) \ {{}}} :
+                 s \in {x \in Scheds(C) : MainG(C, X, x)}}
+  \cup {Act("Timeout", s) : s \in {x \in Scheds(C) : TimeoutG(C, X, x)}}
+  \cup {Act("CancelProp", s) : s \in {x \in Scheds(C) : CancelPropG(C, X, x)}}
+  \cup {Act("TidyDone", s) : s \in {x \in Scheds(C) : TidyDoneG(C, X, x)}}
+  \cup {Act("Relay", s) : s \in {x \in Scheds(C) : RelayG(C, X, x)}}
+  \cup UNION {{<<"ShutJoin", s, {}, "-", k>> : k \in Culprits(C, X, s)} :
+                 s \in {x \in Scheds(C) : ShutJoinG(C, X, x)}}
+  \cup {Act("ShutExpire", s) : s \in {x \in Scheds(C) : ShutExpireG(C, X, x)}}
+  \cup {Act("ShutCancelProp", s) : s \in {x \in Scheds(C) : ShutCancelPropG(C, X, x)}}
+  \cup (IF TickG(C, X) THEN {Act("Tick", 0)} ELSE {})
+ActOK(C, a) == a[1] = "JobEnd" => OutOK(C, a[2], a[4])
+Apply(C, X, a) ==
+  CASE a[1] = "Admit"      -> AdmitF(C, X, a[2])
+    [] a[1] = "JobEnd"     -> JobEndF(C, X, a[2], a[4])
+    [] a[1] = "CancelDone" -> CancelDoneF(C, X, a[2])
+    [] a[1] = "HandlerEnd" -> HandlerEndF(C, X, a[2])
+    [] a[1] = "Process"    -> ProcessF(C, X, a[2], a[3])
+    [] a[1] = "Timeout"    -> TimeoutF(C, X, a[2])
+    [] a[1] = "CancelProp" -> CancelPropF(C, X, a[2])
+    [] a[1] = "TidyDone"   -> TidyDoneF(C, X, a[2])
+    [] a[1] = "Relay"      -> RelayF(C, X, a[2])
+    [] a[1] = "ShutJoin"   -> ShutJoinF(C, X, a[2], a[5])
+    [] a[1] = "ShutExpire" -> ShutExpireF(C, X, a[2])
+    [] a[1] = "ShutCancelProp" -> ShutCancelPropF(C, X, a[2])
+    [] a[1] = "Tick"       -> TickF(C, X)
 
 -----------------------------------------------------------------------------
 VARIABLES cfg, S
